@@ -12,15 +12,18 @@ import time
 
 from .. import common
 from ..translate import specs as tr_specs
+from ..translate import specslex as tr_specslex
 
 PROP = "C18"
-MODULES = ["XpmVerif.Properties.C18", "XpmVerif.Properties.C18Parse"]
+MODULES = ["XpmVerif.Properties.C18", "XpmVerif.Properties.C18Parse", "XpmVerif.Properties.C18Lex", "XpmVerif.Properties.C18Find"]
 GB = 10**9
 
 
 def prove(ctx):
-    msgs = [tr_specs.generate(common.REPO, common.LEAN)]
+    msgs = [tr_specs.generate(common.REPO, common.LEAN), tr_specslex.generate(common.REPO, common.LEAN)]
     ctx.notes.append(f"translator: {msgs[0][1]}")
+    ctx.notes.append(f"translator (terminals of parser.py): {msgs[1][1]}")
+    ctx.extra_cov["translator_fallbacks"] = sum(1 for _, m in msgs if m.startswith("untranslated") or "reference model used" in m)
     common.check_proofs(ctx, MODULES, translate_msgs=msgs)
 
 
@@ -156,6 +159,62 @@ def text_of_tokens(toks, rng):
         out += sep + w
         prev = w
     return out + ws()
+
+
+WS_CHARS = [" ", "\t", "\n", "\r"]
+SIZE_UNITS = ["", "G", "M", "K", "T", "P", "GB", "MB", "KB", "GiB", "MiB", "KiB", "TiB", "Gi", "Ki", "gib", "GIB", "gb", "g", "m", "k", "b", "B", "bytes", "byte",
+              "gibibyte", "gibibytes", "Gibibytes", "mebibytes", "kibibyte", "gigabytes", "giga", "megabyte", "Gs", "GiBs", "s", "X", "iB", "o", "Go", "E", "ZiB", "y", "yobibyte"]
+TIME_UNITS = ["", "s", "sec", "secs", "second", "seconds", "m", "min", "mins", "minute", "minutes", "h", "hour", "hours", "H", "Hours", "d", "day", "days", "D",
+              "w", "week", "weeks", "y", "year", "years", "mi", "ho", "da", "hr", "hrs", "x", "mo", "month"]
+
+
+def gen_quantity(rng, units):
+    """integer literal + unit spelling with padding (ASCII; no fractional numbers, no sub-second units)"""
+    def ws():
+        return "".join(rng.choice(WS_CHARS) for _ in range(rng.choice([0, 0, 0, 1, 1, 2])))
+    n = rng.choice([0, 1, 2, 3, 4, 7, 12, 16, 64, 100, 512, 1024, 4096, 65536, 123456789])
+    digits = str(n) if rng.random() < 0.9 else "0" * rng.choice([1, 2]) + str(n)
+    r = rng.random()
+    unit = rng.choice(units)
+    if r < 0.06:
+        return ws() + unit + ws()                      # no number
+    if r < 0.10:
+        return ws() + digits + ws() + unit + ws() + str(rng.choice([1, 22]))   # a second number
+    if r < 0.14:
+        return rng.choice(["x", "-", "+", "G"]) + digits + unit
+    return ws() + digits + ws() + unit + ws()
+
+
+def mutate_text(text, rng):
+    """character-level edits of a request text: unknown units, missing parentheses, trailing garbage, case, stray characters"""
+    r = rng.random()
+    if not text:
+        return text
+    i = rng.randrange(len(text))
+    if r < 0.18:
+        return text[:i] + text[i + 1:]                                     # drop a character (often a parenthesis / a letter of a keyword)
+    if r < 0.30:
+        return text + rng.choice([" x", ")", "&", "|", " 3", "G", ",", " cpu", "\t", " \n", "*2", "*"])   # trailing garbage / padding
+    if r < 0.42:
+        for a, b in rng.sample([("G", "GiB"), ("G", "GB"), ("G", "g"), ("G", "K"), ("G", " G"), ("M", "MiB"), ("M", "m"), ("hours", "hour"), ("hours", "hrs"), ("days", "day"),
+                                ("h", "H"), ("days", "d ays"), ("d", "m"), ("h", "min"), ("=", " = "), ("=", "=="), ("=", ":"), ("mem", "memory"), ("mem", "me m"), ("cores", "core"),
+                                ("cuda", "gpu"), ("cpu", "CPU"), ("cuda", "Cuda"), ("duration", "time"), ("&", "&&"), ("|", "||"), (",", ";"), (",", ",,"), ("(", "(("), (")", "))"),
+                                ("(", "["), ("*", "x"), ("*", "**")], 6):
+            if a in text:
+                j = rng.choice([k for k in range(len(text)) if text.startswith(a, k)])
+                return text[:j] + b + text[j + len(a):]
+        return text.upper()
+    if r < 0.52:
+        return text[:i] + text[i].swapcase() + text[i + 1:]
+    if r < 0.70:
+        return text[:i] + rng.choice(list("()=,&|*GMhd0123456789. \t\n\rxo-_")) + text[i:]    # insert a character
+    if r < 0.80:
+        return text[:i] + rng.choice(list("()=,&|*GMhd09 x")) + text[i + 1:]                 # replace a character
+    if r < 0.88 and len(text) > 1:
+        j = rng.randrange(len(text))
+        i, j = min(i, j), max(i, j)
+        return text[:i] + text[j:]                                                            # cut a span
+    return text[:i] + rng.choice(WS_CHARS) + text[i:]                                         # whitespace inside a token or between tokens
 
 
 # ---------------------------------------------------------------- real code adapters
@@ -429,9 +488,20 @@ def gen_cases(ctx, n, rng):
             cases.append({"kind": "and", "a": gen_alts(rng)[0], "b": gen_alts(rng)[0], "same": rng.random() < 0.15})
         elif r < 0.75:
             cases.append({"kind": "mul", "a": gen_alts(rng)[0], "c": rng.choice([0, 1, 1, 2, 3, 5])})
-        elif r < 0.88:
+        elif r < 0.84:
             alts = gen_alts(rng, malformed=rng.random() < 0.15)
             cases.append({"kind": "text", "alts": alts, "text": render(alts, rng)})
+        elif r < 0.93:
+            alts = gen_alts(rng, malformed=rng.random() < 0.1)
+            text = render(alts, rng)
+            for _ in range(rng.choice([0, 1, 1, 1, 2, 3])):
+                text = mutate_text(text, rng)
+            cases.append({"kind": "chars", "text": text})
+        elif r < 0.95:
+            if rng.random() < 0.5:
+                cases.append({"kind": "size", "text": gen_quantity(rng, SIZE_UNITS)})
+            else:
+                cases.append({"kind": "timespan", "text": gen_quantity(rng, TIME_UNITS)})
         else:
             toks = tokens_of(gen_alts(rng, malformed=rng.random() < 0.1))
             for _ in range(rng.choice([0, 1, 1, 2])):
@@ -465,6 +535,10 @@ def run_cases(ctx, cases, with_model=True):
                     elif t["k"] == "memlit" and t.get("sfx", "") == "" and not after_mem:
                         toks[i] = {"k": "num", "n": t["n"]}
                 line = {"op": "parse", "toks": toks}
+            elif k == "chars":
+                line = {"op": "lextext", "text": c["text"]}
+            elif k in ("size", "timespan"):
+                line = {"op": k, "text": c["text"]}
             else:
                 line = {"op": "text", "alts": c["alts"]}
         except (ValueError, IndexError) as e:  # a generated request with no programmatic form (empty cuda()/cpu())
@@ -491,6 +565,22 @@ def run_cases(ctx, cases, with_model=True):
                     out = {"reqs": "error"}
                 nt = len(c["toks"]) > 6
                 ctx.count("token_stream_outcome", "error" if out["reqs"] == "error" else "ok")
+            elif k == "chars":
+                from experimaestro.launcherfinder.parser import parse
+                try:
+                    out = {"reqs": [val(r) for r in parse(c["text"])]}
+                except Exception:
+                    out = {"reqs": "error"}
+                nt = len(c["text"]) > 12
+                ctx.count("chars_outcome", "error" if out["reqs"] == "error" else "ok")
+            elif k in ("size", "timespan"):
+                import humanfriendly
+                try:
+                    out = {"v": int(humanfriendly.parse_size(c["text"])) if k == "size" else int(humanfriendly.parse_timespan(c["text"]))}
+                except (humanfriendly.InvalidSize, humanfriendly.InvalidTimespan):
+                    out = {"v": None}
+                nt = out["v"] is not None and out["v"] > 999
+                ctx.count(f"{k}_outcome", "error" if out["v"] is None else "ok")
             else:
                 out, prog = impl_text_case(ctx, c["alts"], c["text"])
                 nt = len(c["text"]) > 20
@@ -501,6 +591,9 @@ def run_cases(ctx, cases, with_model=True):
             ctx.count("impl_raised", type(e).__name__)
         lines.append(line)
         impl.append(out)
+        if k in ("text", "tokens"):   # the same text through the character-level model (lexer + token grammar)
+            lines.append({"op": "lextext", "text": c["text"]})
+            impl.append({"reqs": out["reqs"]} if "reqs" in out else out)
         ctx.count("kind", k)
         ctx.case(c, nt)
     if not with_model or not lines:
@@ -531,12 +624,26 @@ def _canon_out(o):
 
 def correspond(ctx):
     ctx.rule = ("cases: (host, alternatives) for match/union/registry.find, (a,b) for &, (a,count) for *, (AST, rendered text with random "
-                "whitespace) for parse; non-trivial = match case with >=2 alternatives, a GPU request and mixed outcomes / & or * with GPU lists "
+                "whitespace) for parse, character-level edits of such texts (unknown units, missing parentheses, trailing garbage, case, stray characters) "
+                "through the real parse and the Lean lexer+grammar, size/timespan literals (integer, unit spellings incl. G/GB/GiB/Gi, padding) through humanfriendly "
+                "and the Lean parseSize/parseTimespan; non-trivial = match case with >=2 alternatives, a GPU request and mixed outcomes / & or * with GPU lists "
                 "/ text longer than 20 chars; distinct = distinct case hash")
-    ctx.assumptions += ["humanfriendly.parse_size / parse_timespan, arpeggio tokenisation (exercised, not proved)",
+    ctx.assumptions += ["humanfriendly.parse_size / parse_timespan and arpeggio's scannerless matching are libraries: modelled (Model/SpecsLex.lean) and compared on generated "
+                        "ASCII texts, not proved; `\\d` is ASCII 0-9 in the model (Python's also matches other Unicode digits); integer literals, no sub-second time units",
                         "host and request quantities are non-negative integers"]
     n = ctx.scale(1500, 40000)
-    run_cases(ctx, gen_cases(ctx, n, ctx.rng))
+    cases = gen_cases(ctx, n, ctx.rng)
+    # character level: more mutated texts and quantity literals (cheap: no host, no registry)
+    rng = ctx.rng
+    for _ in range(ctx.scale(700, 12000)):
+        alts = gen_alts(rng, malformed=rng.random() < 0.1)
+        text = render(alts, rng)
+        for _ in range(rng.choice([0, 1, 1, 1, 2, 3])):
+            text = mutate_text(text, rng)
+        cases.append({"kind": "chars", "text": text})
+    for _ in range(ctx.scale(400, 6000)):
+        cases.append({"kind": "size", "text": gen_quantity(rng, SIZE_UNITS)} if rng.random() < 0.55 else {"kind": "timespan", "text": gen_quantity(rng, TIME_UNITS)})
+    run_cases(ctx, cases)
 
 
 def search(ctx):
